@@ -116,6 +116,7 @@ func init() {
 		conserve.SelectorRules(p, r)
 		conserve.FilterDelegate(p, r)
 		conserve.StrandTally(p, r)
+		conserve.StrandComplement(p, r)
 		r.NotDecided = append(r.NotDecided, "selector grammar and regexp semantics", "the tie-break and the recursive cases of LocationLess", "boolean-algebra laws of And/Or/Not", "the binary search of FeatureSlice.Insert")
 	})
 	register("C04", true, func(p *core.Prog, r *core.Report, tier string) {
